@@ -70,6 +70,9 @@ func valueForms(v interface{}, strict bool) []string {
 		}
 		return []string{x}
 	case json.Number:
+		if !strict {
+			return []string{string(x), strconv.Quote(string(x))}
+		}
 		return []string{string(x)}
 	case bool:
 		if x {
@@ -387,6 +390,14 @@ func diagnose(cs *Case, m map[string]interface{}, tail string, want []string, ca
 			toks = append(toks, k+"="+valueForms(m[k], true)[0])
 		}
 		exp = strings.Join(toks, " ")
+	}
+	if len(want) > 0 && strings.HasSuffix(tail, " ") {
+		for _, cand := range cands {
+			if matchSeq(strings.TrimSuffix(tail, " "), cand, m, true) {
+				viol("spacing-violated", "one-line", "a space follows the last field", q(tail), q(exp))
+				return
+			}
+		}
 	}
 	toks, ok := lenientParse(tail, m)
 	if !ok {
